@@ -3,6 +3,10 @@
 into /verif, and turn the matching known finding into a `fixed` record."""
 import json, os, subprocess, sys, shutil
 ROOT = os.path.dirname(os.path.dirname(os.path.abspath(__file__)))
+import fcntl
+_lock = open("/tmp/repo.lock", "w")
+fcntl.flock(_lock, fcntl.LOCK_EX)  # wait for a running seedtest to restore /repo
+assert subprocess.run(["git", "-C", "/repo", "status", "--porcelain"], capture_output=True, text=True).stdout.strip() == "", "/repo not clean"
 fid = sys.argv[1]
 d = os.path.join(ROOT, "fixes", fid)
 msg = open(os.path.join(d, "commit_message.txt")).read()
